@@ -4,7 +4,7 @@
    current line states to events (plain diagnostics, explanations, fix
    transactions `Xxxf; [Explain]; ops...; Apply`, saves, the summary); the mode
    is not an argument of a check.  `only` is the --only list. *)
-From PV Require Import Lib.Bytes Model.Modes Proofs.Modes.
+From PV Require Import Lib.Bytes Model.Modes Proofs.Modes Proofs.ModesDiags.
 Open Scope N_scope.
 
 (* -f announces exactly the AUTOFIX actions that -F performs, in the same
@@ -58,6 +58,33 @@ Definition C04_show_diags_subset_default_full : Prop := show_diags_subset_defaul
 Theorem C04_show_diags_subset_default_refuted : ~ C04_show_diags_subset_default_full.
 Proof. exact show_diags_subset_default_refuted. Qed.
 Print Assumptions C04_show_diags_subset_default_refuted.
+
+(* what remains true, with the guard spelled out: for all lists of checks none
+   of which uses Replace/ReplaceAfter (op_no_ra: ReplaceAt, InsertAbove/Below,
+   Delete, Custom are allowed) and whose diagnostics have a level determined by
+   their message (event_level), every diagnostic (level, file, line numbers,
+   message) printed with -f is printed by the default run *)
+Theorem C04_show_diags_subset_default_partial : forall (lvl : str -> level) only ls (cs : list check),
+  (forall c ls' e, In c cs -> In e (c ls') -> event_no_ra e /\ event_level lvl e) ->
+  forall it, In it (diags (run ShowAutofix only ls cs)) -> In it (diags (run Default only ls cs)).
+Proof. exact show_diags_subset_default_partial. Qed.
+Print Assumptions C04_show_diags_subset_default_partial.
+
+(* the refutation's witness violates exactly that guard (its first check uses ReplaceAfter) *)
+Example C04_partial_guard_needed : ~ checks_ok (fun _ => Note) [wit_check1; wit_check2].
+Proof. exact partial_guard_needed. Qed.
+
+(* the guard is satisfiable by checks that do fix something *)
+Example C04_partial_nonvacuous :
+  checks_ok (fun _ => Note) [wit_check2]
+  /\ diags (run ShowAutofix [] [mk_line [102] 1 [88;61;32;118] [[88;61;32;118;10]]] [wit_check2]) <> [].
+Proof.
+  split.
+  - intros c ls e [<-|[]] He. unfold wit_check2 in He.
+    destruct ls as [|l r]; [destruct He|]. destruct (has_prefix _ _); [|destruct He].
+    destruct He as [<-|[]]. split; [|reflexivity]. cbn. repeat constructor.
+  - vm_compute. discriminate.
+Qed.
 
 (* non-vacuity: the witness run really prints, advertises and shows something *)
 Example C04_witness_nontrivial :
